@@ -178,9 +178,9 @@ func (c c07Case) mustNotSelect(m string) (bool, string) {
 
 func init() {
 	register("C07", "exploration", func(r *ev.Rec) {
-		k := 2
+		k := 3
 		if r.Tier == "thorough" {
-			k = 3
+			k = 4
 		}
 		cases := c07Cases(k)
 		names := make([]string, len(c07Factors))
